@@ -231,12 +231,23 @@ func (r *c14run[K]) construct(rng *core.Rng) bool {
 			return
 		case 1:
 			r.Log("Map.MakeFromArray(%v %v)", strs(r.d, ks), vs)
+			if n == 0 && rng.Chance(1, 2) {
+				r.Log("(the Go array is nil)")
+				as = nil
+			}
 			r.real = M.MakeFromArray(as)
 		case 2:
 			r.Log("Map.MakeFromMap(%s)", r.canon(want))
 			src := map[K]int{}
 			for k, v := range want {
 				src[k] = v
+			}
+			if n == 0 && rng.Chance(1, 2) {
+				// an uninitialised Go map is an empty Go map
+				r.Log("(the Go map is nil)")
+				r.real = M.MakeFromMap(nil)
+				r.C.Cover("map.construct.nil-go-map")
+				break
 			}
 			r.real = M.MakeFromMap(src)
 			r.srcMap, r.srcWant = src, r.canon(src)
